@@ -98,17 +98,17 @@ D = {  # id: (property, breaks, needs, strengthened-note)
  "C29-4": ("C29", "requester's public/private classification cached per overlay and never invalidated", "requester first seen with a private underlay, record replaced by a public one, second request", "missed at first; the C29 generator now replaces the requester's record between requests"),
  "C03-3": ("C03", "SetHeader keeps the caller's span slice instead of copying it", "caller recycles its span buffer before Hash / Reset zeroes the caller's buffer", "missed at first; the C03 runner now scribbles over its span buffer right after SetHeader"),
  "C03-4": ("C03", "Write keeps the last section open only when the filling write was non-empty", "zero-length Write on a full hasher, then Hash (worker goroutine panic)", ""),
- "C02-3": ("C02", "ChunkPipe.Write fast path sends whole chunks past buffered bytes", "short write followed by a write of >= one chunk through ChunkPipe", ""),
- "C02-4": ("C02", "pipeline bmt writer returns the hasher to the pool before Hash", "concurrent uploads", ""),
- "C02-5": ("C02", "FeedPipeline drops bytes delivered together with io.EOF", "a reader returning data and EOF in one call", ""),
- "C06-3": ("C06", "GetChunkHashes verifies pyramid entries in goroutines capturing the loop variables (go 1.17 semantics): only the last entry is verified", "adversarial pyramid with >= 2 entries, altered one not last in map order", ""),
+ "C02-3": ("C02", "ChunkPipe.Write fast path sends whole chunks past buffered bytes", "short write followed by a write of >= one chunk through ChunkPipe", "missed at first; strengthening by fix-r2-a"),
+ "C02-4": ("C02", "pipeline bmt writer returns the hasher to the pool before Hash", "concurrent uploads", "missed at first; strengthening by fix-r2-a"),
+ "C02-5": ("C02", "FeedPipeline drops bytes delivered together with io.EOF", "a reader returning data and EOF in one call", "missed at first; strengthening by fix-r2-a"),
+ "C06-3": ("C06", "GetChunkHashes verifies pyramid entries in goroutines capturing the loop variables (go 1.17 semantics): only the last entry is verified", "adversarial pyramid with >= 2 entries, altered one not last in map order", "missed at first; strengthening by fix-r2-a"),
  "C06-4": ("C06", "retrieval falls back to soc.FromChunk (layout only) instead of soc.Valid", "crafted single-owner-shaped reply for another address", ""),
- "C16-3": ("C16", "DELETE handler computes the unshared-chunk list before entering DelFile (list-then-remove no longer atomic)", "upload / delete of an overlapping file while a DELETE is held at DelFile", ""),
+ "C16-3": ("C16", "DELETE handler computes the unshared-chunk list before entering DelFile (list-then-remove no longer atomic)", "upload / delete of an overlapping file while a DELETE is held at DelFile", "missed at first; C16 now holds a DELETE at DelFile (delr op) + generated fact that the list is computed under the lock"),
  "C16-4": ("C16", "registration gives a one-chunk file's chunk two references", "files of at most one chunk; delete or evict", ""),
- "C21-3": ("C21", "EachBin/EachBinRev copy the outer slice once under the lock and read bins[i] unlocked", "iteration concurrent with Add/Remove (data race on the per-bin slice headers)", ""),
+ "C21-3": ("C21", "EachBin/EachBinRev copy the outer slice once under the lock and read bins[i] unlocked", "iteration concurrent with Add/Remove (data race on the per-bin slice headers)", "missed at first (demonstration needs -race); the pslice lock extractor now follows local aliases of guarded fields: C21_lockset_table breaks"),
  "C21-4": ("C21", "batch Add collects new addresses but indexes addrPo by the wrong position", "batch in which an already-present address precedes a new one", ""),
- "C38-3": ("C38", "discovery writes answered peers straight into knownPeers (no removal from connected/kept)", "member handshakes while a findGroup request is in flight and is named in the answer", ""),
- "C38-4": ("C38", "de-duplication cache bounded to 1024 entries (LRU eviction before expiry)", "> ~500 messages within the window, then a late duplicate", ""),
+ "C38-3": ("C38", "discovery writes answered peers straight into knownPeers (no removal from connected/kept)", "member handshakes while a findGroup request is in flight and is named in the answer", "missed at first; C38 now runs real discovery rounds with a handshake at the rendezvous + generated fact on list mutations"),
+ "C38-4": ("C38", "de-duplication cache bounded to 1024 entries (LRU eviction before expiry)", "> ~500 messages within the window, then a late duplicate", "missed at first; C38 now has a 1100-message burst case + generated fact on the cache constructor"),
 }
 rows = []
 for d in sorted(glob.glob('/verif/seeded/*')):
